@@ -382,6 +382,40 @@ func checkC19(p *Prog, r *Report) {
 		})
 	}
 	r.Ob("class-constants", "-", okConst && nconst >= 5, fmt.Sprintf("%d bulk-density class constants %v, all inside [0.8, 2.2]: %v (measured values from the soil file are assumed admissible)", nconst, vals, okConst))
+	// ---------------------------------------------------------------- O6
+	r.Rule("C19.O6", "initial profile inside the envelope: at initialisation every node i = 1..N is the convex combination (1 − i/N)·T_surface + (i/N)·T_lower-boundary of the start surface temperature and the constant lower-boundary temperature", 1)
+	if ix := walked(p, "hermes.Init"); ix != nil {
+		var t0 Poly
+		var st *Event
+		for _, e := range ix.Events {
+			if e.Kind != "assign" || e.Root != "GlobalVarsMain.TSOIL" || len(e.Idx) != 2 {
+				continue
+			}
+			if len(e.Loops) == 0 && e.Idx[0].IsZero() && e.Idx[1].IsZero() {
+				t0 = e.Val
+			}
+			if len(e.Loops) == 1 && e.Idx[0].IsZero() {
+				st = e
+			}
+		}
+		if t0.T == nil || st == nil {
+			r.Ob("init-profile", "-", false, "start surface temperature or profile loop not found in Init")
+		} else {
+			L := st.Loops[0]
+			v := st.Val.Subst(func(a *Atom) (Poly, bool) {
+				if a.Kind == "cell" && a.Root == "GlobalVarsMain.TSOIL" && len(a.Idx) == 2 && a.Idx[0].IsZero() && a.Idx[1].IsZero() {
+					return t0, true
+				}
+				return Poly{}, false
+			})
+			iv := PAtom(L.Var)
+			Np := cellP("GlobalVarsMain.N")
+			want := t0.Sub(t0.Sub(cellP("GlobalVarsMain.TBASE")).Mul(iv).Div(Np))
+			lo, hi, unit, why := loopBounds(ix, L)
+			okR := why == "" && unit && lo.Equal(PInt(1)) && stripVersions(hi).Equal(Np) && st.Idx[1].Equal(iv)
+			r.Ob("init-profile", p.Pos(st.Pos), stripVersions(v).Equal(stripVersions(want)) && okR, fmt.Sprintf("TSOIL[0][i] = %s for i = %s..%s (must be T0 − (T0 − TBASE)·i/N, i.e. a convex combination; an absolute value or another slope extrapolates beyond the boundary temperatures)", clip(stripVersions(v).String(), 160), polyOr(lo), polyOr(hi)))
+		}
+	}
 	r.Assume = append(r.Assume, "bulk density ∈ [0.8, 2.2] g/cm³, water content ∈ [0, 1 − BD/2.65], humus fraction ∈ [0, 0.15] (organic carbon 0–6 % × 1.72/100 ≤ 0.1032)", "the maximum principle argument is in real arithmetic; floating-point round-off is outside the claim")
 }
 
